@@ -130,9 +130,17 @@ type group struct {
 }
 
 type caseRun struct {
-	reqauth  bool
+	reqauth   bool
+	noMonitor bool // no overlap monitor: the FileSys touches no memory shared between operations
 	mu       sync.Mutex
 	overlaps []string
+}
+
+func (c *caseRun) newGroup() *group {
+	if c.noMonitor {
+		return nil
+	}
+	return &group{}
 }
 
 func (c *caseRun) overlap(kind int, other int32, obj int) {
@@ -204,7 +212,7 @@ func (f *gfs) Auth(ctx context.Context, uname, aname string) (p9p.AuthFile, erro
 	if !o.ok {
 		return nil, errFS
 	}
-	return &gauth{gfile{c: t.cr, id: id, grp: &group{}}, o.dir}, nil
+	return &gauth{gfile{c: t.cr, id: id, grp: t.cr.newGroup()}, o.dir}, nil
 }
 
 func (f *gfs) Attach(ctx context.Context, uname, aname string, af p9p.AuthFile) (p9p.Dirent, error) {
@@ -212,7 +220,7 @@ func (f *gfs) Attach(ctx context.Context, uname, aname string, af p9p.AuthFile) 
 	if !o.ok {
 		return nil, errFS
 	}
-	return &gent{c: t.cr, id: id, dir: o.dir, grp: &group{}}, nil
+	return &gent{c: t.cr, id: id, dir: o.dir, grp: t.cr.newGroup()}, nil
 }
 
 type gent struct {
@@ -250,7 +258,7 @@ func (e *gent) Walk(ctx context.Context, names ...string) ([]p9p.Qid, p9p.Dirent
 	if n > len(names) {
 		n = len(names)
 	}
-	return make([]p9p.Qid, n), &gent{c: t.cr, id: id, dir: o.dir, grp: &group{}}, nil
+	return make([]p9p.Qid, n), &gent{c: t.cr, id: id, dir: o.dir, grp: t.cr.newGroup()}, nil
 }
 
 func (e *gent) Create(ctx context.Context, name string, perm uint32, mode p9p.Flag) (p9p.Dirent, p9p.File, error) {
@@ -258,7 +266,7 @@ func (e *gent) Create(ctx context.Context, name string, perm uint32, mode p9p.Fl
 	if !o.ok {
 		return nil, nil, errFS
 	}
-	ne := &gent{c: t.cr, id: id, dir: o.dir, grp: &group{}}
+	ne := &gent{c: t.cr, id: id, dir: o.dir, grp: t.cr.newGroup()}
 	return ne, &gfile{c: t.cr, id: id, grp: ne.grp}, nil
 }
 
@@ -618,7 +626,101 @@ type event struct {
 	items []sx.S
 }
 
+// ---------------------------------------------------------------- free-running stress (no gates, no harness synchronisation between operations)
+
+// stress: G goroutines issue random operations on one session as fast as they can; the FileSys answers
+// from the scripts without parking.  Each goroutine allocates new fids only from its own range (the client
+// does not allocate one new fid from two requests at once) but uses every fid.  Oracles: overlap monitor,
+// every goroutine finishes (generous watchdog), no fid locked afterwards; under -race the race detector
+// sees the session's accesses without any ordering imposed by the harness.
+func stress(rng *prng.R, monitor bool) (ops int, fails []failRec) {
+	const G = 6
+	const perG = 150
+	cr := &caseRun{reqauth: rng.Chance(1, 4), noMonitor: !monitor}
+	sess := p9p.SFileSys(&gfs{cr})
+	type plan struct{ ops []opDesc }
+	plans := make([]plan, G)
+	allFids := func(r *prng.R) int64 {
+		if r.Chance(1, 30) {
+			return nofid
+		}
+		return int64(r.Intn(G * 3))
+	}
+	for g := 0; g < G; g++ {
+		r := rng.Fork()
+		own := func() int64 { return int64(g*3 + r.Intn(3)) }
+		for i := 0; i < perG; i++ {
+			o := genOp(r, 15)
+			o.a = allFids(r)
+			switch o.kind {
+			case "attach":
+				o.a = own()
+				if o.b != nofid {
+					o.b = allFids(r)
+				}
+			case "auth":
+				o.a = own()
+			case "walk":
+				if r.Chance(1, 5) {
+					o.b = o.a
+				} else {
+					o.b = own()
+				}
+			}
+			plans[g].ops = append(plans[g].ops, o)
+		}
+	}
+	var wg sync.WaitGroup
+	var panics atomic.Int32
+	for g := 0; g < G; g++ {
+		wg.Add(1)
+		go func(g int) {
+			defer wg.Done()
+			for i, o := range plans[g].ops {
+				t := &thr{id: g*perG + i, op: o, cr: cr, open: true}
+				ctx := context.WithValue(context.Background(), thrKey{}, t)
+				func() {
+					defer func() {
+						if x := recover(); x != nil {
+							panics.Add(1)
+						}
+					}()
+					execOp(ctx, sess, o)
+				}()
+			}
+		}(g)
+	}
+	done := make(chan struct{})
+	go func() { wg.Wait(); close(done) }()
+	select {
+	case <-done:
+	case <-time.After(settleLimit):
+		fails = append(fails, failRec{Key: "c14.stress-never-returns", What: "free-running operations on one session (ungated FileSys) did not all return within " + settleLimit.String()})
+		return G * perG, fails
+	}
+	if n := panics.Load(); n > 0 {
+		fails = append(fails, failRec{Key: "c14.stress-panic", What: fmt.Sprintf("%d session methods panicked under free-running concurrency", n)})
+	}
+	_, tab := tableSexp(sess)
+	for _, e := range tab {
+		if e.Locked {
+			fails = append(fails, failRec{Key: "c14.stress-fid-left-locked", What: fmt.Sprintf("fid %d is locked after all free-running operations returned", e.Fid)})
+			break
+		}
+	}
+	seen := map[string]bool{}
+	for _, o := range cr.overlaps {
+		if !seen[o] {
+			seen[o] = true
+			fails = append(fails, failRec{Key: "c14.stress-overlapping-fs-calls:" + o, What: "the FileSys saw two overlapping calls on the entry/open file of one fid under free-running concurrency: " + o})
+		}
+	}
+	return G * perG, fails
+}
+
 type caseResult struct {
+	Stress            bool
+	StressOps         int
 	Case, Obs, Branch string
 	Nontrivial        bool
 	Fails             []failRec
@@ -999,6 +1101,14 @@ func childMain(seed uint64, batch, count int) {
 		enc.Encode(res)
 		w.Flush()
 	}
+	for i := 0; i < 2+count/25; i++ {
+		fmt.Fprintf(os.Stderr, "@@case stress %d of batch %d (seed %d)\n", i, batch, seed)
+		// odd rounds run without the overlap monitor, whose atomic counters would order the session's
+		// memory accesses and hide data races from the race detector
+		n, fails := stress(rng.Fork(), i%2 == 0)
+		enc.Encode(caseResult{Stress: true, StressOps: n, Fails: fails})
+		w.Flush()
+	}
 }
 
 func main() {
@@ -1086,12 +1196,20 @@ func main() {
 	wg.Wait()
 	opcls := map[string]int{}
 	replays, inconclusive := 0, 0
+	stressOps := 0
 	harnessErr := ""
 	for b, o := range outs {
 		for _, l := range o.lines {
 			var cr caseResult
 			if err := json.Unmarshal(l, &cr); err != nil {
 				harnessErr = "bad child output: " + err.Error()
+				continue
+			}
+			if cr.Stress {
+				stressOps += cr.StressOps
+				for _, f := range cr.Fails {
+					r.Fail(f.Key, f.What, nil, f.Detail)
+				}
 				continue
 			}
 			c := sx.Sym(cr.Case)
@@ -1127,6 +1245,7 @@ func main() {
 		r.Samples = []string{"(no non-trivial case in this run)"}
 	}
 	r.Extra["op_result_classes"] = opcls
+	r.Extra["stress_free_running_ops"] = stressOps
 	r.Extra["lin_oracle_sequential_replays"] = replays
 	r.Extra["lin_oracle_inconclusive_cases"] = inconclusive
 	if harnessErr != "" {
